@@ -4,13 +4,15 @@ package clock
 
 import "sync/atomic"
 
-// VerifNow, when non-nil, replaces the wall clock of every Clock: NowNano
-// returns its value. Only compiled with the verif build tag.
+// VerifNow, when non-nil, replaces the wall clock of every Clock: it holds the
+// virtual wall-clock time in nanoseconds since the Unix epoch, and NowNano
+// returns that time minus the clock's origin, exactly as time.Since(Start) would.
+// Only compiled with the verif build tag.
 var VerifNow atomic.Pointer[atomic.Int64]
 
-func verifNow(*Clock) (int64, bool) {
+func verifNow(c *Clock) (int64, bool) {
 	if p := VerifNow.Load(); p != nil {
-		return p.Load(), true
+		return p.Load() - c.Start.UnixNano(), true
 	}
 	return 0, false
 }
